@@ -37,10 +37,10 @@ out = ["# Independently seeded changes", "",
        "Each directory holds the change (`patch.diff`), the seeding agent's "
        "demonstration (`demo.py`: passes on the clean tree, fails with the "
        "change), its `notes.md`, my confirmation logs and `meta.json`.", "",
-       "Round 1 = `CNN-sK`, round 2 = `CNN-r2sK`, round 3 = `CNN-r3sK`, round 4 = `CNN-r4sK`, round 5 = `CNN-r5sK`, round 6 = `CNN-r6sK`, round 7 = `CNN-r7sK`, round 8 = `CNN-r8sK`.  'first pass' is the "
+       "Round 1 = `CNN-sK`, round 2 = `CNN-r2sK`, round 3 = `CNN-r3sK`, round 4 = `CNN-r4sK`, round 5 = `CNN-r5sK`, round 6 = `CNN-r6sK`, round 7 = `CNN-r7sK`, round 8 = `CNN-r8sK`, round 9 = `CNN-r9sK`.  'first pass' is the "
        "verdict of the property's quick check as it stood when the seed was "
        "first confirmed (round 1 first-pass misses are listed in DESIGN.md "
-       "section 12, rounds 2-8 in ROUND2_FIRST_PASS.md .. ROUND8_FIRST_PASS.md); 'caught by' is the "
+       "section 12, rounds 2-9 in ROUND2_FIRST_PASS.md .. ROUND9_FIRST_PASS.md); 'caught by' is the "
        "verdict of the checks after strengthening.", "",
        "| seed | breaks | confirmed | first pass | caught by (quick tier) | first signature |",
        "|---|---|---|---|---|---|"]
